@@ -31,7 +31,9 @@ TEXT = ("TLC explores every sequence of file, open-option, directory-utility and
         "the blocking fallback, and on std::fs/libc; results, error kinds, buffer contents and lengths, file contents "
         "and the final namespace must equal the OS leg.")
 NOTE = ("Bounds: files <= 4 bytes initially, offsets 0..5 and u64::MAX, lengths 0..3, <= 3-4 operations (quick) / 4-6 "
-        "(thorough), buffer shapes exact/spare/partial, 1-2 vectored members, all 64 open-option combinations, 6 path "
+        "(thorough), buffer shapes exact/spare/partial, 1-2 vectored members, all 64 open-option combinations x O_TMPFILE "
+        "x modes {0666,0640} plus {0600,0444,0660} on creating opens (permission bits of the opened inode are part of "
+        "the result, umask fixed to 022), 6 path "
         "names. Identity across drivers is decided through the common OS reference. The blocking fallback can only be "
         "forced by a harness wrapper around the real OpCode (the driver chooses it by kernel probe); ReadAt/WriteAt/"
         "Sync have no blocking fallback on io_uring. Scratch directories live on tmpfs (quick) and additionally on the "
@@ -181,6 +183,11 @@ def run(run, tier, replay):
             out += _parallel(gen_jobs + ctl_jobs)
             r3 = vlib.tlc("FileModel", "MC_FileModel_oldknown.cfg", workers=2, timeout=600)
             vlib.require_model_ok(r3, "FileModel/MC_FileModel_oldknown.cfg")
+            # model-level mutation control: OpenFile::call passing the mode only together with O_CREAT
+            r4 = vlib.tlc("FileModel", "MC_FileModel_mut_mode.cfg", workers=2, timeout=600, coverage=False)
+            if r4.violated != "PathsAgree":
+                raise vlib.ToolError("mutation control MC_FileModel_mut_mode.cfg: expected PathsAgree to be violated, got %s %s"
+                                     % (r4.violated, r4.error))
         mark("tlc_and_build")
         for c, r in zip(mc_cfgs, out):
             vlib.require_model_ok(r, "FileModel/" + c)
@@ -284,9 +291,34 @@ def run(run, tier, replay):
         nm2 = sum(p["count"] for p in sneg2["problems"] if p["type"] == "modelerr")
         if nm2 < k2:
             raise vlib.ToolError("negative control: a corrupted OS reference was accepted (%d of %d noticed)" % (nm2, k2))
+        # permission bits: a successful open of a created / O_TMPFILE inode with the predicted bits changed to
+        # those of the same open without its mode (what the kernel gives for mode 0) must be noticed, on every driver
+        bad3 = os.path.join(tmp, "neg3.jsonl")
+        k3 = {}
+        with open(paths[0]) as f, open(bad3, "w") as g:
+            for line in f:
+                o = json.loads(line)
+                st = o["steps"][-1]
+                opt = st["op"]["opt"]
+                if st["op"]["o"] != "open" or st["res"]["e"] != "" or st["res"]["n"] == 0 or \
+                        not (opt["tmp"] or opt["c"] or opt["cn"]) or o["init"]["ns"]["f"]["k"] == "file" and not opt["tmp"]:
+                    continue
+                key = (o["drv"], opt["tmp"])
+                if k3.get(key, 0) >= 5:
+                    continue
+                k3[key] = k3.get(key, 0) + 1
+                st["res"]["n"] = 0
+                g.write(json.dumps(o) + "\n")
+        n3 = sum(k3.values())
+        sneg3, dneg3 = replay_file(bad3, fss)
+        nm3 = sum(p["count"] for p in sneg3["problems"] if p["type"] == "mismatch" and p["sig"].get("what") == "count")
+        if len(k3) < 6 or nm3 < n3:
+            raise vlib.ToolError("negative control: corrupted permission bits of created/O_TMPFILE inodes were accepted "
+                                 "(%d of %d noticed, classes %s)" % (nm3, n3, sorted(k3)))
         mark("negative_control")
         run.note("phase_wall_s", phases)
-        run.note("negative_control", {"corrupted_res": k, "noticed": nm, "corrupted_ref": k2, "noticed_ref": nm2})
+        run.note("negative_control", {"corrupted_res": k, "noticed": nm, "corrupted_ref": k2, "noticed_ref": nm2,
+                                      "corrupted_perm": n3, "noticed_perm": nm3})
         run.assumptions += ["the tags written (10*step+k) and the buffer pre-fill pattern stand for arbitrary bytes",
                             "tmpfs and the disk-backed temp directory behave like any Linux file system for these calls",
                             "Vec::with_capacity gives the exact capacity (asserted by the harness)"]
